@@ -483,7 +483,11 @@ func initDesignateNotaryRoleAsLeaderTick(ctx context.Context, prm enableNotaryPr
 				make([]byte, extraLen)...)
 			buf := tx.Scripts[1].InvocationScript[initialLen:]
 
-			for _, sig := range mCommitteeIndexToSignature {
+			for i := range prm.committee { // signatures must follow the order of keys in the verification script
+				sig, ok := mCommitteeIndexToSignature[i]
+				if !ok {
+					continue
+				}
 				buf[0] = byte(opcode.PUSHDATA1)
 				buf[1] = byte(len(sig))
 				buf = buf[2:]
